@@ -12,6 +12,8 @@ mod c08;
 mod c11;
 mod c12;
 mod c15;
+mod c16;
+mod c18;
 mod gen;
 mod c13;
 mod c14;
@@ -64,6 +66,8 @@ fn main() {
             "c08" => c08::replay(case),
             "c01" => c01::replay(case),
             "c12" => c12::replay(case),
+            "c16" | "c16-stitched" => c16::replay(case),
+            "c18" => c18::replay(case),
             "c15" => c15::replay(case),
             "delete" => c05::replay(case),
             "e3" => match case["check"].as_str().unwrap_or("") {
@@ -136,7 +140,9 @@ fn main() {
         "C13" => c13::run(&report, &budget),
         "C14" => c14::run(&report, &budget),
         "C15" => c15::run(&report, &budget),
+        "C16" => c16::run(&report, &budget),
         "C17" => c17::run(&report, &budget),
+        "C18" => c18::run(&report, &budget),
         _ => {
             eprintln!("unknown property {id}");
             std::process::exit(2);
